@@ -1,6 +1,6 @@
 (* C14: placement of time-stamped cal solutions onto the (preselected) dumps: Model/CalPlace.v *)
-From Coq Require Import ZArith QArith List Bool Lia Sorting String.
-From KV Require Import Base.Sx Base.Str Gen.Generated Model.Interp Model.CalInterp Model.CalPlace Proofs.CalInterpP.
+From Coq Require Import ZArith QArith List Bool Lia Sorting String Ascii.
+From KV Require Import Base.Sx Base.Str Gen.Generated Model.Interp Model.CalInterp Model.CalSelect Model.CalPlace Proofs.CalInterpP.
 Import ListNotations.
 Open Scope Z_scope.
 
@@ -271,3 +271,71 @@ Proof.
   rewrite place_product_is_spec by exact Hs. rewrite Ht.
   destruct (spec_place_product true ends P samples); [|reflexivity]. rewrite gain_is_spec. reflexivity.
 Qed.
+
+(* ---------- multi-part attribute: which sensors are read *)
+Lemma stitch_fuel_single : forall (p : part) n, (List.length p <= n)%nat -> stitch_fuel n [p] = p.
+Proof.
+  induction p as [|[t v] r IH]; intros n Hn.
+  - destruct n; reflexivity.
+  - destruct n as [|n]; [cbn [List.length] in Hn; lia|]. cbn [stitch_fuel min_ts fold_right head_ts opt_min fst map piece_at advance].
+    assert (Qeq_bool t t = true) as -> by (apply Qeq_bool_iff; reflexivity).
+    unfold assemble. cbn [last_present flat_map map snd]. rewrite app_nil_r. f_equal. apply IH. cbn [List.length] in Hn. lia.
+Qed.
+Lemma stitch_single : forall p : part, stitch [p] = match p with [] => None | _ => Some p end.
+Proof.
+  intros p. unfold stitch. rewrite stitch_fuel_single.
+  - destruct p; reflexivity.
+  - unfold total_len. cbn [fold_right]. lia.
+Qed.
+
+Lemma indirect_one_part : forall lookup,
+  indirect_product lookup (Some 1%nat) = match lookup (Some 0%nat) with Some (s :: r) => Some (s :: r) | _ => None end.
+Proof.
+  intros. unfold indirect_product, product_keys. change parts_first_index with 0%nat. cbn [seq map].
+  rewrite stitch_single. destruct (lookup (Some 0%nat)) as [[|s r]|]; reflexivity.
+Qed.
+Lemma indirect_no_parts_attr : forall lookup, indirect_product lookup None = lookup None.
+Proof. reflexivity. Qed.
+Lemma indirect_zero_parts : forall lookup, indirect_product lookup (Some 0%nat) = None.
+Proof. reflexivity. Qed.
+Lemma indirect_parts_keys : forall n, product_keys (Some n) = map Some (seq 0 n).
+Proof. reflexivity. Qed.
+Lemma indirect_is_stitch : forall lookup n,
+  indirect_product lookup (Some n) =
+  stitch (map (fun i => match lookup (Some i) with Some p => p | None => [] end) (seq 0 n)).
+Proof. intros. unfold indirect_product. rewrite indirect_parts_keys, map_map. reflexivity. Qed.
+
+(* ---------- <stream>.<type>: split at the LAST dot, for every string *)
+Open Scope string_scope.
+Lemma rsplit_none_iff : forall s, rsplit_dot s = None <-> has_dot s = false.
+Proof.
+  induction s as [|a t IH]; [split; reflexivity|]. cbn [rsplit_dot has_dot].
+  destruct (rsplit_dot t) as [[h r]|].
+  - split; [discriminate|]. intros H. apply orb_false_iff in H. destruct H as [_ H]. apply IH in H. discriminate.
+  - destruct (Ascii.eqb a "."%char) eqn:E; cbn [orb].
+    + split; discriminate.
+    + split; intros _; [apply IH|]; reflexivity.
+Qed.
+Lemma rsplit_last_dot : forall s t, has_dot t = false -> rsplit_dot (s ++ "." ++ t) = Some (s, t).
+Proof.
+  intros s t Ht. induction s as [|a s' IH].
+  - change ("" ++ "." ++ t) with (String "." t). cbn [rsplit_dot].
+    assert (rsplit_dot t = None) as -> by (apply rsplit_none_iff; exact Ht). reflexivity.
+  - change (String a s' ++ "." ++ t) with (String a (s' ++ "." ++ t)). cbn [rsplit_dot]. rewrite IH. reflexivity.
+Qed.
+Lemma parse_is_rsplit : forall s, parse_cal_product s = rsplit_dot s.
+Proof. reflexivity. Qed.
+(* the type of a parsed name never contains a dot, and the name is put together again from its two halves *)
+Lemma rsplit_sound : forall s a b, rsplit_dot s = Some (a, b) -> s = a ++ "." ++ b /\ has_dot b = false.
+Proof.
+  induction s as [|c t IH]; intros a b H; [discriminate|]. cbn [rsplit_dot] in H.
+  destruct (rsplit_dot t) as [[h r]|] eqn:E.
+  - inversion H; subst. destruct (IH h b eq_refl) as [H1 H2]. split; [|exact H2]. rewrite H1 at 1. reflexivity.
+  - destruct (Ascii.eqb c "."%char) eqn:Ec; [|discriminate]. inversion H; subst. apply Ascii.eqb_eq in Ec. subst c.
+    split; [reflexivity|]. apply rsplit_none_iff. exact E.
+Qed.
+Close Scope string_scope.
+
+Lemma flux_merge_decisions : flux_none_disables = true /\ flux_override_wins = true /\ parts_first_index = 0%nat /\
+  parse_splits_at_last_dot = true /\ parts_shape_checked = true /\ request_parsing_shape_checked = true.
+Proof. repeat split; reflexivity. Qed.
